@@ -3,12 +3,13 @@
    operations, f over every fault (crash before / crash after / OSError at every file-system call: makedirs and the
    reading open of start-up, is_dir, open, any write, close, rename, remove),
    n over every chunk count of json.dump, d over every disk.
-   All four defects found on the snapshot are repaired in /repo (b610a07, 6518f2a, 66c61e0): there is no Refuted.v any
-   more and no theorem carries an exception for a finding. *)
+   The four defects found on the snapshot are repaired in /repo (b610a07, 6518f2a, 66c61e0).  One finding is open:
+   C17/adjacent-surrogate-pair-not-restored (Refuted.v has the witnesses); C17_roundtrip_except_adjacent_surrogate_pair
+   carries the guard that excludes it, no other theorem carries an exception. *)
 From Coq Require Import List Arith ZArith NArith Bool Lia String.
 Import ListNotations.
 Require Import FV.Base.Util FV.Gen.C17 FV.C17.Model FV.C17.Lemmas FV.C17.LemmasSeq FV.C17.LemmasLink FV.C17.Counter
-  FV.C17.ConcModel FV.C17.ConcLemmas FV.C17.ConcCounter.
+  FV.C17.ConcModel FV.C17.ConcLemmas FV.C17.ConcCounter FV.C17.Refuted.
 
 (* obligations on the facts regenerated from /repo (Gen/C17.v): the code has the shape the model assumes *)
 Theorem C17_source_facts :
@@ -176,7 +177,9 @@ Qed.
 (* RETRY, full statement (was C17_retry_except_failed_save with the guard "no save failed with an OSError"): after any
    history since the creation of the module - saves failing with OSError at any operation included - in which nobody
    else replaced the file, a saveParameters() without fault on a module without pending writes leaves a complete
-   document equal (python ==) to the current snapshot on disk *)
+   document equal (python ==) to the current snapshot on disk (holds: the stored file reads as that document, or as
+   what the JSON text of that document reads back as - reads_as of Lemmas.v, the two differ only for strings with
+   an adjacent surrogate pair) *)
 Theorem C17_retry : forall M pre cfg f0 n0 ops n m data,
   Forall own_op ops ->
   let s := run M (pre ++ OInit cfg f0 n0 :: ops) st0 in
@@ -228,15 +231,31 @@ Theorem C17_precedence : forall M cfg raw loaded i p, nth_error M i = Some p ->
 Proof. exact init_precedence. Qed.
 
 (* a module re-created from the file a save has written gets every persistent parameter that is not configured
-   back to the same value, for every datatype whose export and reading of entries invert each other on that value *)
-Theorem C17_roundtrip : forall M vs data n cfg i p v,
-  codec_ok M vs -> snapshot_of M vs = Some data ->
+   back to the same value, for every datatype whose export and reading of entries invert each other on that value.
+   FULL statement (false of the code as it is, open finding C17/adjacent-surrogate-pair-not-restored, witness
+   C17_refuted_roundtrip_without_guard in Refuted.v):
+     forall M vs data n cfg i p v, codec_ok M vs -> snapshot_of M vs = Some data ->
+       nth_error M i = Some p -> persistent p = true -> aget i vs = Some v -> aget i cfg = None ->
+       exists raw loaded, load_file M (target := CW data n n) = LOk raw loaded /\
+                          aget i (vals (init_state M cfg raw loaded)) = Some v.
+   PROVED with the guard jtext data = data: the JSON text of the document reads back as the document, i.e. no string
+   in it holds a high surrogate (U+D800..DBFF) directly followed by a low one (U+DC00..DFFF) as two code points -
+   jtext changes nothing else (C17_text_unchanged_without_adjacent_pair below, for strings) *)
+Theorem C17_roundtrip_except_adjacent_surrogate_pair : forall M vs data n cfg i p v,
+  codec_ok M vs -> snapshot_of M vs = Some data -> jtext data = data ->
   nth_error M i = Some p -> persistent p = true -> aget i vs = Some v -> aget i cfg = None ->
   exists raw loaded, load_file M {| target := Some (CW data n n); tmp := None |} = LOk raw loaded /\
     aget i (vals (init_state M cfg raw loaded)) = Some v.
 Proof. exact roundtrip_module. Qed.
 
-(* the inversion law holds for the scalar datatypes (int, bool, enum, string, double) on every valid value *)
+(* the guard in terms of code points: a string without a high surrogate directly followed by a low surrogate is its own
+   JSON text reading *)
+Theorem C17_text_unchanged_without_adjacent_pair : forall s, no_adjacent_pair s = true -> jtext_str s = s.
+Proof. exact jtext_str_id. Qed.
+
+(* the inversion law holds for the scalar datatypes (int, bool, enum, string, double) on every valid value.  It is about
+   export_value / import_value / validate, not about the text: it needs no guard (the value that comes back from the
+   text is a different j) *)
 Theorem C17_codec_scalar : forall d v j,
   scalar d = true -> validate d v = Some v -> export d v = Some j -> usable_dt d j = Some v.
 Proof. exact codec_scalar. Qed.
@@ -286,5 +305,6 @@ Print Assumptions C17_startup.
 Print Assumptions C17_loaded_values_valid.
 Print Assumptions C17_tolerant_load.
 Print Assumptions C17_precedence.
-Print Assumptions C17_roundtrip.
+Print Assumptions C17_roundtrip_except_adjacent_surrogate_pair.
+Print Assumptions C17_text_unchanged_without_adjacent_pair.
 Print Assumptions C17_codec_scalar.
